@@ -71,6 +71,10 @@ class C10(Prop):
         den = rng.choice((1, 1, 2, 16, 2 ** 20, 2 ** 24))
         kind = rng.choice(("push", "push", "merge")) if T >= 2 else "push"
         case = {"T": T, "C": C, "dkind": dkind, "den": den, "dseed": rng.randrange(1 << 30), "peek": rng.random() < 0.3}
+        if rng.random() < 0.25:
+            # float64 samples, also values float32 cannot hold (0.1, 1/3): the accumulator works in float32 - it
+            # must behave as if fed the samples rounded to float32, in every partition
+            case.update(idt="f8", den=rng.choice((1, 16, 10, 3, 7)))
         if kind == "push":
             case.update(kind="push", mode=rng.choice(("full", "full", "basic")),
                         chunks=comp or self._rand_comp(rng, T))
@@ -128,7 +132,9 @@ class C10(Prop):
         from sigpyproc.core.stats import ChannelStats
 
         T, C = data.shape
-        x = (data.astype(np.float64) / den).astype(np.float32)
+        x = (data.astype(np.float64) / den)
+        if not getattr(self, "_f8", False):
+            x = x.astype(np.float32)
         bag = ChannelStats(C, T)
         pos = 0
         for ii, n in enumerate(chunks):
@@ -150,6 +156,7 @@ class C10(Prop):
 
     def observe(self, case):
         data = make_data(case)
+        self._f8 = case.get("idt") == "f8" and case["kind"] != "reader"
         try:
             if case["kind"] == "push":
                 return self._summ(self._feed(data, case["den"], case["chunks"], case["mode"], case.get("peek", False)))
@@ -183,8 +190,8 @@ class C10(Prop):
         return data[case["s"]:case["s"] + case["n"]] if case["kind"] == "reader" else data
 
     def model_requests(self, case, obs):
-        if case.get("big"):
-            return []  # too long for a request line; covered by the oracle and by merge_exact
+        if case.get("big") or (case.get("idt") == "f8" and case["den"] in (10, 3, 7)):
+            return []  # too long for a request line / samples not exact rationals num/den after rounding to float32
         data = self._stream(case)
         T, C = data.shape
         reqs = []
@@ -236,6 +243,8 @@ class C10(Prop):
         data = self._stream(case)
         T, C = data.shape
         x = data.astype(np.float64) / case["den"]
+        if case.get("idt") == "f8":
+            x = x.astype(np.float32).astype(np.float64)      # the samples as the float32 accumulator takes them
         basic = case.get("mode") == "basic"
         for c in range(C):
             col = x[:, c]
